@@ -21,7 +21,7 @@ META = dict(
     assumptions=['REF-SYN (vlib/ref/syn.py) reads sentences through plain attribute access only'],
     min_events={'quick': {'substitutions_checked': 40000, 'substitutions_changing': 10000, 'attribute_sets_checked': 8000,
                           'unquantify_checked': 2000, 'negative_checked': 5000},
-                'thorough': {'substitutions_checked': 1500000, 'substitutions_changing': 400000, 'attribute_sets_checked': 200000}},
+                'thorough': {'substitutions_checked': 1500000, 'substitutions_changing': 300000, 'attribute_sets_checked': 120000}},
     budget=dict(quick=300, thorough=2400),
     unit_timeout=dict(quick=240, thorough=2000),
 )
